@@ -61,6 +61,14 @@ impl Config {
         }
 
         let n_layers: usize = self.n_layers.to_bigint().try_into()?;
+        // One step size per layer and one table commitment configuration per inner layer.
+        if self.fri_step_sizes.len() != n_layers || self.inner_layers.len() != n_layers - 1 {
+            return Err(Error::InvalidLength {
+                n_layers,
+                step_sizes: self.fri_step_sizes.len(),
+                inner_layers: self.inner_layers.len(),
+            });
+        }
         let mut sum_of_step_sizes = Felt::ZERO;
         let mut log_input_size = self.log_input_size;
 
@@ -116,6 +124,8 @@ pub enum Error {
     VectorValidationFailed(#[from] swiftness_commitment::vector::config::Error),
     #[error("BigInt conversion Error")]
     TryFromBigInt(#[from] TryFromBigIntError<BigInt>),
+    #[error("{n_layers} layers need {n_layers} step sizes (got {step_sizes}) and one less inner layers (got {inner_layers})")]
+    InvalidLength { n_layers: usize, step_sizes: usize, inner_layers: usize },
 }
 
 #[cfg(not(feature = "std"))]
@@ -136,4 +146,6 @@ pub enum Error {
     VectorValidationFailed(#[from] swiftness_commitment::vector::config::Error),
     #[error("BigInt conversion Error")]
     TryFromBigInt(#[from] TryFromBigIntError<BigInt>),
+    #[error("{n_layers} layers need {n_layers} step sizes (got {step_sizes}) and one less inner layers (got {inner_layers})")]
+    InvalidLength { n_layers: usize, step_sizes: usize, inner_layers: usize },
 }
